@@ -74,6 +74,13 @@ Proof.
         try (split; [lia|]);
         try reflexivity;
         destruct (spec_conn s (S r) (S c) rest) as [T n']; reflexivity.
+    + (* ConnectDown: no recursion *)
+      case_req q; try discriminate Hm; clear Hm IH;
+        cbn; rewrite ?Nat.eqb_refl; cbn;
+        repeat split; exists 1; (split; [lia|]);
+        try (split; [lia|]);
+        try reflexivity;
+        destruct (spec_conn s (S r) (S c) rest) as [T n']; reflexivity.
     + (* ConnectMitm *)
       destruct (is_qhijack q) eqn:Hq; [|destruct (is_shijack q) eqn:Hs].
       * case_req q; try discriminate Hm; try discriminate Hq; clear IH;
@@ -99,7 +106,7 @@ Proof.
         split; [cbn [arm]; exact Ha|].
         exists (S n). split; [lia|].
         assert (Hblk : block r c s q =
-                       ([ReqMod r c s [r]; ResMod r true c s 200 0 [r];
+                       ([ReqMod r c s [r]; ResMod r true c s 200 0 (b2n (is_qerr q)) [r];
                          Write r 200 (b2n (is_serr q)) (r_close q) 1], Continue)).
         { unfold block. rewrite Hq, Hm, Hs. reflexivity. }
         cbn [spec_conn]. rewrite Hblk. cbn [obs_of app].
